@@ -26,3 +26,7 @@ Definition anon_name (index : N) : name := [].
 (** `[a, b].into_iter().flatten()` on Options *)
 Definition opt_flatten {A} (l : list (option A)) : list A :=
   flat_map (fun o => match o with Some x => [x] | None => [] end) l.
+(** typed accessors of ast::Value / ast::InnerValue on the CoreAst *)
+Definition value_inners (v : value) : list inner := match v with Val _ l => l end.
+Definition inner_simple (x : inner) : simple := match x with Inner s _ => s end.
+Definition inner_sufs (x : inner) : list suffix := match x with Inner _ l => l end.
